@@ -111,7 +111,7 @@ def work(job):
     return out, (st, len(full))
 
 
-def make_file(rnd, ver):
+def make_file(rnd, ver, force_ghost=False):
     """a dump whose records are a decodable stream (so traces / formatted lines exist)"""
     w = World(rnd, big_tids=False)
     g = gen.ProgGen(w, rnd, ntids=2, noise=0.05, composites=False)
@@ -124,6 +124,7 @@ def make_file(rnd, ver):
         data = a.data if a.data is not None else struct.pack('<QQQQ', *[x & ((1 << 64) - 1) for x in a.words])
         recs.append(kd_buf(257 + 10 * k, tid=a.ctid, debugid=a.debugid, data=data))
     fg = FileGen(rnd)
+    fg.force_ghost = force_ghost        # the stackshot filler holds what looks like a thread-map and an events section
     if ver == 2:
         f = fg.v2(nrec=0, pad=rnd.choice([0, 0, 3, 64, 100]))
         f['_recs'] = recs
@@ -167,7 +168,7 @@ def run(ctx):
     blobs = {}
     for i in range(nfiles):
         ver = 3 if i % 3 else 2
-        blob, layout = make_file(rnd, ver)
+        blob, layout = make_file(rnd, ver, force_ghost=(i % 3 == 1))
         fid = 'f%d_v%d' % (i, ver)
         blobs[fid] = blob
         # every offset - except inside segments longer than 512 bytes (large fillers / paddings): there the first and last 64
